@@ -215,6 +215,14 @@ def translate():
              and U(c.args[0]) == "model_obj", "call_obj_processors: process call changed: " + U(c))
     if any(U(c.keywords[0].value) == "loc" for c in pcalls):
         need(U(cop).count("loc = get_location(model_obj)") == 1, "loc is not get_location(model_obj)")
+        assigns = [n for n in ast.walk(cop) if isinstance(n, ast.Assign) and U(n.targets[0]) == "loc"]
+        # the only other value of loc: no location at all for a plain Python value (no _tx_position)
+        others = [U(a.value) for a in assigns if U(a.value) != "get_location(model_obj)"]
+        need(others in ([], ["{'line': None, 'col': None, 'nchar': None, 'filename': None}"]), "loc assigned from %r" % others)
+        if others:
+            guards = [n for n in ast.walk(cop) if isinstance(n, ast.If) and U(n.test) == "hasattr(model_obj, '_tx_position')"]
+            need(len(guards) == 1 and U(guards[0].body[0]) == "loc = get_location(model_obj)" and len(guards[0].body) == 1
+                 and len(guards[0].orelse) == 1, "guard of the plain-value location changed")
 
     # ---- match dispatch
     kwsets = []
